@@ -8,6 +8,7 @@ import (
 	"strconv"
 	"strings"
 
+	"github.com/ChrisTrenkamp/xsel"
 	"github.com/ChrisTrenkamp/xsel/node"
 	"github.com/ChrisTrenkamp/xsel/parser"
 )
@@ -281,6 +282,14 @@ func GenJsonFamily(w *Writer, r *Rng, t Tier) error {
 		if panicked {
 			impl = "panic"
 		}
+		// the public entry point (adapter + store) decides whether the text is an error
+		if _, rerr := readJsonGuard(text); (rerr != nil) != failed && !panicked {
+			if rerr == nil {
+				impl = "accepted-by-ReadJson-though-the-adapter-reported-an-error " + impl
+			} else {
+				impl = "err"
+			}
+		}
 		meta := map[string]interface{}{"k": "json", "fam": fam, "text": text, "n": len(evs) + 1}
 		if expect != "" {
 			meta["expect"] = expect
@@ -288,4 +297,13 @@ func GenJsonFamily(w *Writer, r *Rng, t Tier) error {
 		w.Line("json "+toks+" "+terminal+" "+valsSexp, impl, meta)
 	}
 	return nil
+}
+
+func readJsonGuard(text string) (c xsel.Cursor, err error) {
+	defer func() {
+		if r := recover(); r != nil {
+			err = fmt.Errorf("panic")
+		}
+	}()
+	return xsel.ReadJson(strings.NewReader(text))
 }
